@@ -81,6 +81,53 @@ func rootFn(f *ssa.Function) *ssa.Function {
 	return f
 }
 
+// capturedCell is a variable captured by reference by a go closure.
+type capturedCell struct {
+	name string
+	bad  bool // assigned again by the spawning function after the go statement (or written by the goroutine and read by the parent)
+}
+
+// capturedCells lists the variables the closure started by g captures by
+// reference and whether each is shared with later code of the spawning
+// function f (a path from the go statement to a store that does not re-execute
+// the variable's allocation: i.e. not a per-iteration variable).
+func capturedCells(f *ssa.Function, g *ssa.Go) []capturedCell {
+	mc, ok := g.Common().Value.(*ssa.MakeClosure)
+	if !ok {
+		return nil
+	}
+	var out []capturedCell
+	for _, b := range mc.Bindings {
+		al, ok := an.CellRoot(b).(*ssa.Alloc)
+		if !ok {
+			continue
+		}
+		stores, _ := an.CellStores(al)
+		bad := false
+		for _, st := range stores {
+			if st.Parent() != f {
+				continue // written inside a closure: would be a shared variable
+			}
+			// a path that re-executes the Alloc creates a fresh variable (per-iteration variable)
+			if an.Search(an.After(g), isInstr(st), isInstr(al)) != nil {
+				bad = true
+			}
+		}
+		for _, st := range stores {
+			if st.Parent() == mc.Fn.(*ssa.Function) {
+				// the goroutine writes a captured variable: is it read by the parent afterwards?
+				for _, ld := range an.CellLoads(al) {
+					if ld.Parent() == f && an.Search(an.After(g), isInstr(ld), isInstr(al)) != nil {
+						bad = true
+					}
+				}
+			}
+		}
+		out = append(out, capturedCell{al.Comment, bad})
+	}
+	return out
+}
+
 func checkC15(c *Ctx) {
 	R := c.R
 	m := c.serverModel()
@@ -413,42 +460,9 @@ func checkC15(c *Ctx) {
 			if !ok {
 				continue
 			}
-			mc, ok := g.Common().Value.(*ssa.MakeClosure)
-			if !ok {
-				continue
-			}
-			for _, b := range mc.Bindings {
-				al, ok := an.CellRoot(b).(*ssa.Alloc)
-				if !ok {
-					continue
-				}
+			for _, cv := range capturedCells(f, g) {
 				nCap++
-				stores, _ := an.CellStores(al)
-				bad := false
-				for _, st := range stores {
-					if st.Parent() != f {
-						continue // written inside a closure: would be a shared variable
-					}
-					// a path that re-executes the Alloc creates a fresh variable (per-iteration variable)
-					if an.Search(an.After(g), isInstr(st), isInstr(al)) != nil {
-						bad = true
-					}
-				}
-				for _, st := range stores {
-					if st.Parent() != f && st.Parent() != mc.Fn.(*ssa.Function) {
-						continue
-					}
-					if st.Parent() == mc.Fn.(*ssa.Function) {
-						// the goroutine writes a captured variable: is it read by the parent afterwards?
-						for _, ld := range an.CellLoads(al) {
-							if ld.Parent() == f && an.Search(an.After(g), isInstr(ld), isInstr(al)) != nil {
-								bad = true
-							}
-						}
-					}
-				}
-				name := al.Comment
-				R.Check(!bad, "C15-capture", fname(f)+": go closure captures "+name, c.pos(g), "the captured variable is not assigned again after the goroutine is started (per-iteration variable)", "variable "+name+" is captured by a goroutine and assigned again afterwards by the spawning function: the goroutine races with the next iteration")
+				R.Check(!cv.bad, "C15-capture", fname(f)+": go closure captures "+cv.name, c.pos(g), "the captured variable is not assigned again after the goroutine is started (per-iteration variable)", "variable "+cv.name+" is captured by a goroutine and assigned again afterwards by the spawning function: the goroutine races with the next iteration")
 			}
 		}
 	}
